@@ -345,6 +345,24 @@ func c01AliasCases() []*h.Case {
 	return out
 }
 
+// injectors written as methods: the generated package must have the METHOD (callers written against the template
+// compile unchanged under the default tags)
+func c01MethodCases() []*h.Case {
+	hdr := "//go:build wireinject\n// +build wireinject\n\npackage p\n\nimport \"github.com/google/wire\"\n\n"
+	defs := "package p\n\ntype App struct{}\n\ntype Config struct{}\n\ntype Server struct{ C Config }\n\nfunc NewServer(c Config) (*Server, error) { return &Server{c}, nil }\n\nfunc NewConfig() Config { return Config{} }\n\n"
+	var out []*h.Case
+	for name, v := range map[string][3]string{
+		"value-receiver":   {"func (App) Make() (*Server, error) {\n\tpanic(wire.Build(NewServer, NewConfig))\n}\n", "var _ func(App) (*Server, error) = App.Make\n", ""},
+		"pointer-receiver": {"func (a *App) Make() (*Server, error) {\n\tpanic(wire.Build(NewServer, NewConfig))\n}\n", "var _ func(*App) (*Server, error) = (*App).Make\n", ""},
+		"method-with-parameter": {"func (a *App) Make(c Config) (*Server, error) {\n\tpanic(wire.Build(NewServer))\n}\n", "var _ func(*App, Config) (*Server, error) = (*App).Make\n", ""},
+		"method-and-function-of-one-name": {"func (App) Make() (*Server, error) {\n\tpanic(wire.Build(NewServer, NewConfig))\n}\n\nfunc Make() Config {\n\tpanic(wire.Build(NewConfig))\n}\n", "var _ func(App) (*Server, error) = App.Make\n\nvar _ func() Config = Make\n", ""},
+	} {
+		files := map[string]string{"defs.go": defs, "wire.go": hdr + v[0], "driver.go": "package p\n\n" + v[1]}
+		out = append(out, &h.Case{ID: "C01/method-injector/" + name, Files: files, Build: true, Judge: judgeC01(true)})
+	}
+	return out
+}
+
 func checkC01(c *h.Check) {
 	thorough := c.Tier == "thorough"
 	var cases []*h.Case
@@ -378,6 +396,9 @@ func checkC01(c *h.Check) {
 	for _, cs := range c01LayoutCases() {
 		add(cs)
 	}
+	for _, cs := range c01MethodCases() {
+		add(cs)
+	}
 	for _, cs := range c01AliasCases() {
 		add(cs)
 	}
@@ -404,7 +425,7 @@ func checkC01(c *h.Check) {
 	c.Coverage["accepted"] = acc
 	c.Coverage["rejected"] = rej
 	c.Coverage["compiled_with_wire_gen"] = comp
-	c.Coverage["rule"] = fmt.Sprintf("%d result type kinds (every basic kind, named and unnamed composites, aliases, generic instances incl. with lib type arguments, types of another package in value/pointer/slice/map-key/func positions, unsafe.Pointer, error) x provider shape (4) x injector shape (>= provider's needs) x %d parameter forms (none, named, blank, unnamed, variadic named/blank, lib-typed variadic, parameters named err/cleanup) x provider in the injector's package or another one; accessibility family: sets declared in another package that list an unexported provider, an unexported struct type, \"*\" or a name over unexported fields, FieldsOf an unexported field, a binding to an unexported interface; layout family: import needed only by a parameter type / zero value / value expression, same-named packages, three injectors in two files with doc comments, unnamed variadic parameters; imports under a user-chosen alias used only by a value expression or only by a copied declaration. Oracle: whenever wire reports success, wire_gen.go is written and the package compiles under the default tags together with a typed function-variable assignment per injector (same name, parameter types incl. variadic, result types). (Every other property's accepted programs are compiled too; a failure there is reported under that property.) Distinct = distinct rendered source.", len(c01Kinds), len(c01Params))
+	c.Coverage["rule"] = fmt.Sprintf("%d result type kinds (every basic kind, named and unnamed composites, aliases, generic instances incl. with lib type arguments, types of another package in value/pointer/slice/map-key/func positions, unsafe.Pointer, error) x provider shape (4) x injector shape (>= provider's needs) x %d parameter forms (none, named, blank, unnamed, variadic named/blank, lib-typed variadic, parameters named err/cleanup) x provider in the injector's package or another one; accessibility family: sets declared in another package that list an unexported provider, an unexported struct type, \"*\" or a name over unexported fields, FieldsOf an unexported field, a binding to an unexported interface; layout family: import needed only by a parameter type / zero value / value expression, same-named packages, three injectors in two files with doc comments, unnamed variadic parameters; imports under a user-chosen alias used only by a value expression or only by a copied declaration; injectors written as methods (value and pointer receivers, with a parameter, next to a function of the same name). Oracle: whenever wire reports success, wire_gen.go is written and the package compiles under the default tags together with a typed function-variable assignment per injector (same name, parameter types incl. variadic, result types). (Every other property's accepted programs are compiled too; a failure there is reported under that property.) Distinct = distinct rendered source.", len(c01Kinds), len(c01Params))
 	if len(cases) > 0 && len(results) == len(cases) {
 		i := len(cases) / 2
 		c.Samples = append(c.Samples, map[string]interface{}{"case": cases[i].ID, "wire.go": cases[i].Files["wire.go"], "driver.go": cases[i].Files["driver.go"], "wire_gen.go": results[i].GenSrc[""]})
